@@ -137,8 +137,8 @@ Section CollObsP.
                      next st' = next st /\ changes ek H st st' (htree h) /\
                      (has_memo (htree h) = true -> mget st' (idof (htree h)) = hash_spec ek H (htree h))) st.
   Proof.
-    intros h l st G [HI HP] GK Hin. pose proof GK as (IDF & BV & MB). destruct CAP as [C1 C2].
-    eapply wp_mono; [|apply (root_is_ssz_hinv ek H M uinv capN h l st UL C1 C2 HI HP)].
+    intros h l st G [HI HP] GK Hin. pose proof GK as (IDF & BV & MB).
+    eapply wp_mono; [|apply (root_is_ssz_hinv ek H M uinv capN h l st UL CAP HI HP)].
     - intros o st' (Eo & Ch & _ & Hm). split; [exact Eo|]. split; [|split; [apply Ch|split; [exact Ch|exact Hm]]].
       assert (Hn : next st' = next st) by apply Ch.
       split; [exact IDF|]. split.
@@ -257,7 +257,7 @@ Section CollObsP.
   (* 1. Reads (pure): uniform names for the IfaceP / IterP / WulP results    *)
   (* ====================================================================== *)
   Lemma cap_ld_o : capN <= cap ek (list_depth ek capN).
-  Proof. destruct CAP as [C1 C2]. apply (HashP.cap_list_depth ek capN C1 C2). Qed.
+  Proof. apply (HashP.cap_list_depth ek capN CAP). Qed.
 
   Theorem obs_get : forall (h : handle) l i, hinv h l -> iface_get ek M h i = nthN l i.
   Proof. intros h l i. apply (iface_get_spec ek M uinv capN (get_rec_canon ek) cap_ld_o). Qed.
@@ -346,6 +346,10 @@ Section CollObsP.
        (fun o st' => exists h', o = Ok h' /\ hclean h' [] /\ hlist h' = true /\ gok st' (htree h' :: G) /\
                                 alloc_only st st') st.
   Proof.
+    (* CAP is not needed any more (with capacity 0 legal, `0 <= capN` is all that was used); it is
+       mentioned so that this lemma and its clients (list_from_ssz_roundtrip, ...) keep their
+       premise `capacity_ok capN`, i.e. their exact statements *)
+    pose proof CAP as _.
     intros R st G GK. pose proof GK as (IDF & BV & MB). destruct uempty_none as [Emax Elen].
     unfold list_empty, fresh. cbn [bind wp].
     set (d := list_depth ek capN). set (z := next st).
@@ -354,7 +358,7 @@ Section CollObsP.
     split; [|split; [reflexivity|split; [|exact AO]]].
     - split.
       + unfold Defs.hinv, habs, from_parts; cbn [htree hdepth hblen hupd hlist].
-        split; [|split; [reflexivity|split; [rewrite lenN_nil; destruct CAP; lia|split; [destruct CAP; lia|split; [discriminate|apply (ul_empty_inv ek M uinv UL)]]]]].
+        split; [|split; [reflexivity|split; [rewrite lenN_nil; lia|split; [lia|split; [discriminate|apply (ul_empty_inv ek M uinv UL)]]]]].
         exists []. split; [cbn [shape]; destruct d; reflexivity|]. split; [reflexivity|]. split.
         * split; [lia|]. split; [intros k v E; rewrite (ul_empty_get ek M uinv UL) in E; discriminate|].
           split; [intros k _ Hk; rewrite lenN_nil in Hk; lia|intros k _ Hk; rewrite lenN_nil in Hk; lia].
